@@ -1477,6 +1477,19 @@ pub const SPLICES: &[&str] = &[
     "\u{17D2}\u{1780}",
     "<pre>\u{644}\u{627} \u{263a}\u{fe0f}</pre>",
     "<s>\u{644}\u{627}</s>",
+    // empty id-bearing elements and other non-item children, e.g. directly inside a list or table
+    "<span id=\"m\"></span>",
+    "<a name=\"t\"></a>",
+    "<hr id=\"h\">",
+    "<img id=\"i\">",
+    "<ul><a name=\"t\"></a><li>x</li><span id=\"m\"></span><li>y</li></ul>",
+    "<ol><span id=\"m\"></span><li>x</li></ol>",
+    "<dl><a name=\"t\"></a><dt>x</dt><span id=\"m\"></span></dl>",
+    "<table><a name=\"t\"></a><tr><span id=\"m\"></span><td>x</td></tr></table>",
+    "<li>stray item</li>",
+    "<td>stray cell</td>",
+    "<tr><td>stray row</td></tr>",
+    "<dd>stray definition</dd>",
 ];
 
 pub fn mutations() -> BoxedStrategy<Vec<Mutation>> {
